@@ -9,6 +9,7 @@ import (
 	"fmt"
 	"go/token"
 	"go/types"
+	"strings"
 
 	"golang.org/x/tools/go/ssa"
 )
@@ -1033,4 +1034,269 @@ func (c *Ctx) maxFoldOver(lc *linCtx, v ssa.Value) (string, bool) {
 		}
 	}
 	return sid, sawElem
+}
+
+// ruleFileLines (EXCERPT/LINES): what "source line i" is. The lines of a file are the tokens of a bufio.Scanner with
+// the default split function (ScanLines: "\n" or "\r\n" ends a line, no phantom line after a final newline) over
+// the content pass.ReadFile returned, every token kept (one append per successful Scan, loop left only when Scan
+// fails), and the scanner's buffer admits any line of that content (Buffer(_, max) with max >= len(content)+1:
+// the default limit of 64 KiB makes Scan stop at a longer line and the rest of the file is lost).
+func (c *Ctx) ruleFileLines() {
+	P := c.P
+	n := 0
+	for _, fn := range P.ModFuncs {
+		if funcPkgPath(fn) != modulePath+"/src/reporting" {
+			continue
+		}
+		allInstrs(fn, func(b *ssa.BasicBlock, ins ssa.Instruction) {
+			sc, ok := ins.(*ssa.Call)
+			if !ok || P.CallTo(sc, "bufio.NewScanner") == nil {
+				return
+			}
+			n++
+			name := fmt.Sprintf("%s#scanner%d", FuncName(fn), n)
+			where := P.Pos(sc.Pos())
+			// the content the scanner reads
+			var content ssa.Value
+			for _, r := range P.Resolve(sc.Call.Args[0]) {
+				if rd, isCall := r.(*ssa.Call); isCall && len(rd.Call.Args) == 1 && (P.CallTo(rd, "strings.NewReader") != nil || P.CallTo(rd, "bytes.NewReader") != nil || P.CallTo(rd, "bytes.NewBuffer") != nil || P.CallTo(rd, "bytes.NewBufferString") != nil) {
+					content = rd.Call.Args[0]
+					if cv, isCv := content.(*ssa.Convert); isCv {
+						content = cv.X
+					}
+				}
+			}
+			fromRead := content != nil && P.RootsAll(content, func(r ssa.Value) bool {
+				ex, ok := r.(*ssa.Extract)
+				if !ok || ex.Index != 0 {
+					return false
+				}
+				call, ok := ex.Tuple.(*ssa.Call)
+				return ok && strings.HasSuffix(P.Desc(call.Call.Value), "analysis.Pass.ReadFile)")
+			})
+			c.check(fromRead, "EXCERPT/LINES/CONTENT", name, where, "the scanner reads what pass.ReadFile returned", "the line scanner does not read the bytes pass.ReadFile returned for the file")
+			// uses of the scanner
+			var scans, texts, buffers, splits, others []*ssa.Call
+			if sc.Referrers() != nil {
+				for _, r := range *sc.Referrers() {
+					call, ok := r.(*ssa.Call)
+					if !ok {
+						if _, isDbg := r.(*ssa.DebugRef); !isDbg {
+							others = append(others, nil)
+						}
+						continue
+					}
+					switch P.calleeName(call.Common()) {
+					case "(*bufio.Scanner).Scan":
+						scans = append(scans, call)
+					case "(*bufio.Scanner).Text", "(*bufio.Scanner).Bytes":
+						texts = append(texts, call)
+					case "(*bufio.Scanner).Buffer":
+						buffers = append(buffers, call)
+					case "(*bufio.Scanner).Split":
+						splits = append(splits, call)
+					case "(*bufio.Scanner).Err":
+					default:
+						others = append(others, call)
+					}
+				}
+			}
+			okSplit := true
+			for _, sp := range splits {
+				if f, isF := sp.Call.Args[1].(*ssa.Function); !isF || FuncName(f) != "bufio.ScanLines" {
+					okSplit = false
+				}
+			}
+			c.check(okSplit && len(others) == 0, "EXCERPT/LINES/SPLIT", name, where, "lines are split by bufio.ScanLines", "the scanner does not split the content with bufio.ScanLines (or escapes): a line of the excerpt is not a source line")
+			// one Scan, controlling a loop in which the token is appended exactly once; the loop is left only by Scan
+			okLoop := false
+			why := "the tokens are not collected by `for s.Scan() { lines = append(lines, s.Text()) }`"
+			if len(scans) == 1 && len(texts) == 1 && P.CallTo(texts[0], "(*bufio.Scanner).Text") != nil {
+				scan, text := scans[0], texts[0]
+				if ifi, isIf := lastInstr(scan.Block()).(*ssa.If); isIf && ifi.Cond == ssa.Value(scan) {
+					for _, lp := range naturalLoops(fn) {
+						if lp.head != scan.Block() || !lp.body[text.Block()] || !lp.body[scan.Block().Succs[0]] || lp.body[scan.Block().Succs[1]] {
+							continue
+						}
+						atHead := true
+						for _, ex := range lp.exits {
+							if ex[0] != lp.head {
+								atHead = false
+							}
+						}
+						// the token is appended, unconditionally, in every iteration
+						appended := false
+						for blk := range lp.body {
+							for _, i2 := range blk.Instrs {
+								if ap, isCall := i2.(*ssa.Call); isCall {
+									if ev, _, okA := oneElemOfAppend(ap); okA && ev == ssa.Value(text) && ap.Block() == text.Block() {
+										appended = true
+									}
+								}
+							}
+						}
+						uncond := true
+						for _, t := range fn.Blocks {
+							for _, h := range t.Succs {
+								if h == lp.head && lp.body[t] && !dominates(text.Block(), t) {
+									uncond = false
+								}
+							}
+						}
+						switch {
+						case !atHead:
+							why = "the scan loop can be left before the last line"
+						case !appended:
+							why = "the scanned line is not appended to the list as it is"
+						case !uncond:
+							why = "not every scanned line is kept"
+						default:
+							okLoop = true
+						}
+					}
+				}
+			}
+			c.check(okLoop, "EXCERPT/LINES/ALL", name, where, "every line the scanner delivers is kept, in order", why)
+			// the buffer admits every line
+			okBuf := false
+			for _, bf := range buffers {
+				if len(scans) == 1 && !dominates(bf.Block(), scans[0].Block()) {
+					continue
+				}
+				lc := c.newLin(bf.Block())
+				lc.trust = false
+				max := lc.of(bf.Call.Args[2])
+				if content != nil && lc.prove(geq(max, lc.lenVar(content).add(linConst(1), 1))) {
+					okBuf = true
+				}
+			}
+			c.check(okBuf, "EXCERPT/LINES/ANY-LENGTH", name, where, "the scanner's buffer admits any line of the content (Buffer(_, max), max >= len(content)+1)",
+				"the scanner keeps its default token limit (64 KiB): Scan stops at a longer line, the error is dropped and the file is cached as the lines before it - every diagnostic at or after that line loses its excerpt although the file is readable (no Buffer(_, max) with max >= len(content)+1 before the loop)")
+		})
+	}
+	c.floor("line scanners in package reporting", n, 1)
+}
+
+func oneElemOfAppend(call *ssa.Call) (ssa.Value, ssa.Value, bool) {
+	bi, ok := call.Call.Value.(*ssa.Builtin)
+	if !ok || bi.Name() != "append" || len(call.Call.Args) != 2 {
+		return nil, nil, false
+	}
+	sl, ok := call.Call.Args[1].(*ssa.Slice)
+	if !ok {
+		return nil, nil, false
+	}
+	arr, ok := sl.X.(*ssa.Alloc)
+	if !ok || arr.Referrers() == nil {
+		return nil, nil, false
+	}
+	var elem ssa.Value
+	n := 0
+	for _, r := range *arr.Referrers() {
+		ia, ok := r.(*ssa.IndexAddr)
+		if !ok || ia.Referrers() == nil {
+			continue
+		}
+		for _, r2 := range *ia.Referrers() {
+			if s2, isSt := r2.(*ssa.Store); isSt && s2.Addr == ia {
+				elem = s2.Val
+				n++
+			}
+		}
+	}
+	if n != 1 {
+		return nil, nil, false
+	}
+	return elem, call.Call.Args[0], true
+}
+
+// ruleReporterState (EXCERPT/NO-STATE): a message is a function of the violation (file, line, column) and the file's
+// content. The only thing the reporter may remember between two messages is the content of a file, under the name of
+// that file: a map update in package reporting stores what was read with pass.ReadFile(<key>). A cache of anything
+// rendered (keyed by less than file, line and column) makes the second diagnostic of a line repeat the first one's
+// excerpt and caret.
+func (c *Ctx) ruleReporterState() {
+	P := c.P
+	n := 0
+	for _, fn := range P.ModFuncs {
+		if funcPkgPath(fn) != modulePath+"/src/reporting" {
+			continue
+		}
+		allInstrs(fn, func(b *ssa.BasicBlock, ins ssa.Instruction) {
+			mu, ok := ins.(*ssa.MapUpdate)
+			if !ok {
+				return
+			}
+			n++
+			cons := fmt.Sprintf("%s#map%d", FuncName(fn), n)
+			okV, found := false, false
+			seen := map[ssa.Value]bool{}
+			var walk func(v ssa.Value, d int)
+			walk = func(v ssa.Value, d int) {
+				if v == nil || seen[v] || d > 40 {
+					return
+				}
+				seen[v] = true
+				switch x := v.(type) {
+				case *ssa.Extract:
+					if call, isCall := x.Tuple.(*ssa.Call); isCall && strings.HasSuffix(P.Desc(call.Call.Value), "analysis.Pass.ReadFile)") && len(call.Call.Args) == 1 {
+						found = true
+						if P.Desc(call.Call.Args[0]) == P.Desc(mu.Key) {
+							okV = true
+						}
+						return
+					}
+					walk(x.Tuple, d+1)
+				case *ssa.Phi:
+					for _, e := range x.Edges {
+						walk(e, d+1)
+					}
+				case *ssa.Call:
+					if elem, base, isApp := oneElemOfAppend(x); isApp {
+						walk(elem, d+1)
+						walk(base, d+1)
+						return
+					}
+					if callee := x.Call.StaticCallee(); callee != nil && P.IsProductFunc(callee) && len(callee.Blocks) > 0 {
+						// a product helper (splitLines(text)): what it returns, and what it is given
+						allInstrs(callee, func(_ *ssa.BasicBlock, i2 ssa.Instruction) {
+							if r, isRet := i2.(*ssa.Return); isRet {
+								for _, rv := range r.Results {
+									walk(rv, d+1)
+								}
+							}
+						})
+					}
+					for _, a := range x.Call.Args {
+						walk(a, d+1)
+					}
+				case *ssa.Parameter:
+					for _, a := range P.paramArgs(x) {
+						walk(a, d+1)
+					}
+				case *ssa.Convert:
+					walk(x.X, d+1)
+				case *ssa.ChangeType:
+					walk(x.X, d+1)
+				case *ssa.MakeInterface:
+					walk(x.X, d+1)
+				case *ssa.Slice:
+					walk(x.X, d+1)
+				case *ssa.UnOp:
+					if x.Op == token.MUL {
+						if cell := P.cellOf(x.X); cell != nil {
+							vals, _, _ := P.CellStores(cell)
+							for _, sv := range vals {
+								walk(sv, d+1)
+							}
+						}
+					}
+				}
+			}
+			walk(mu.Value, 0)
+			c.check(found && okV, "EXCERPT/NO-STATE", cons, P.Pos(mu.Pos()), "remembers the content of a file under that file's name",
+				"the reporter remembers something other than the content of the file named by the key ("+short(P.Desc(mu.Value))+" under "+short(P.Desc(mu.Key))+"): a later message is put together from what an earlier one left behind (same line, other column: the first caret is repeated)")
+		})
+	}
+	c.count("map updates in package reporting", n)
 }
